@@ -11,15 +11,20 @@ package layers
 import (
 	"encoding/binary"
 	"errors"
+	"fmt"
 
 	"github.com/gopacket/gopacket"
 )
 
-func decodePrismValue(data []byte, pv *PrismValue) {
+func decodePrismValue(data []byte, pv *PrismValue) error {
 	pv.DID = PrismDID(binary.LittleEndian.Uint32(data[0:4]))
 	pv.Status = binary.LittleEndian.Uint16(data[4:6])
 	pv.Length = binary.LittleEndian.Uint16(data[6:8])
+	if 8+int(pv.Length) > len(data) {
+		return fmt.Errorf("Invalid prism value length %d", pv.Length)
+	}
 	pv.Data = data[8 : 8+pv.Length]
+	return nil
 }
 
 type PrismDID uint32
@@ -113,9 +118,20 @@ type PrismHeader struct {
 func (m *PrismHeader) LayerType() gopacket.LayerType { return LayerTypePrismHeader }
 
 func (m *PrismHeader) DecodeFromBytes(data []byte, df gopacket.DecodeFeedback) error {
+	if len(data) < 24 {
+		df.SetTruncated()
+		return ErrPrismExpectedMoreData
+	}
 	m.Code = binary.LittleEndian.Uint16(data[0:4])
 	m.Length = binary.LittleEndian.Uint16(data[4:8])
 	m.DeviceName = string(data[8:24])
+	if m.Length < 24 {
+		return fmt.Errorf("Invalid prism header length %d", m.Length)
+	}
+	if int(m.Length) > len(data) {
+		df.SetTruncated()
+		return ErrPrismExpectedMoreData
+	}
 	m.BaseLayer = BaseLayer{Contents: data[:m.Length], Payload: data[m.Length:len(data)]}
 
 	switch m.Code {
@@ -131,7 +147,9 @@ func (m *PrismHeader) DecodeFromBytes(data []byte, df gopacket.DecodeFeedback) e
 
 	m.Values = make([]PrismValue, (m.Length-offset)/12)
 	for i := 0; i < len(m.Values); i++ {
-		decodePrismValue(data[offset:offset+12], &m.Values[i])
+		if err := decodePrismValue(data[offset:offset+12], &m.Values[i]); err != nil {
+			return err
+		}
 		offset += 12
 	}
 
